@@ -24,6 +24,20 @@ def check(case):
     margins = {}
     xpts = side.get("x_points", [])
     hist = []
+    ps = list(side.get("psi_sep") or [])
+    pin_tol = 1e-12 * (cref.psi_scale + 1.0) + (abs(ps[0] - ps[-1]) if ps and side.get("double_null_type") == "connected" else 0.0)
+
+    def pinned_ok(R, Z, want):
+        """Corners replaced by an X-point position whose separatrix value (hypnotoad's psi_sep of that
+        X-point; with dct it comes from the critical-point finder's own spline) is the psi of this
+        radial index."""
+        m = numpy.zeros(numpy.shape(R), dtype=bool)
+        for k, xp in enumerate(xpts):
+            if xp is None or k >= len(ps):
+                continue
+            m |= (R == xp[0]) & (Z == xp[1]) & (numpy.abs(want - ps[k]) <= pin_tol)
+        return m
+
     # --- file level -----------------------------------------------------------------
     for rid, reg in side["regions"].items():
         pv = reg["psi_vals"]
@@ -38,8 +52,12 @@ def check(case):
             err = numpy.abs(got - want)
             exempt = numpy.zeros(R.shape, dtype=bool)
             if "corners" in suffix:
+                # a corner replaced by the X-point position is exempt from the refinement tolerance,
+                # but the X-point must be the one of *this* radial index: its psi is the separatrix
+                # value there (a connected double null uses one value for both X-points)
                 exempt = gridcheck.xpoint_mask(R, Z, xpts)
                 pinned_total += int(exempt.sum())
+                exempt = pinned_ok(R, Z, want)
             e = numpy.where(exempt, 0.0, err)
             worst = float(e.max()) if e.size else 0.0
             margins["psi-vs-radial-grid"] = max(margins.get("psi-vs-radial-grid", 0.0), worst / T)
@@ -104,7 +122,7 @@ def check(case):
                     fails.append(
                         ("C01/too-many-pinned-corners", {"region": reg["name"], "count": int(ex.sum())}, {})
                     )
-                err = numpy.where(ex, 0.0, err)
+                err = numpy.where(pinned_ok(R, Z, want), 0.0, err)
             worst = float(err.max()) if err.size else 0.0
             margins["psi-vs-radial-grid"] = max(margins.get("psi-vs-radial-grid", 0.0), worst / T)
             if worst > T:
